@@ -64,7 +64,12 @@ async fn run(ctx: &mut Ctx, npeers: usize, seed: u64, gone_kind: u64, case: &Val
                 kinds.push(kind);
             }
             Err(e) => {
-                ctx.inconclusive(format!("C09 attach: {e}"));
+                // a DEALER/REQ peer with no, an empty or a 1..255-byte identity is a valid peer
+                ctx.violation_with(
+                    "C09/peer-with-valid-identity-not-admitted",
+                    format!("{ty} peer announcing {} was not admitted: {e}", match &id { None => "no identity".to_string(), Some(i) => format!("a {}-byte identity", i.len()) }),
+                    case.clone(),
+                );
                 return;
             }
         }
@@ -429,6 +434,9 @@ async fn cancelled_send(ctx: &mut Ctx, seed: u64, case: &Value) {
 /// identity) before the socket has looked at the old connection again: the only
 /// *connected* peer with that identity is the new one.
 async fn reconnect(ctx: &mut Ctx, observed_first: bool, idlen: usize, case: &Value) {
+    // "same turn": the socket notices the old connection's end and the new connection is
+    // registered before anything else gets to run (no yield to the executor in between)
+    let same_turn = case["same_turn"].as_bool().unwrap_or(false);
     let mut sock = Sock::new("ROUTER", None);
     let ident: Vec<u8> = (0..idlen).map(|i| 0x30 + (i % 40) as u8).collect();
     let other = match Peer::attach(&sock, "DEALER", Some(b"bystander")).await {
@@ -441,7 +449,7 @@ async fn reconnect(ctx: &mut Ctx, observed_first: bool, idlen: usize, case: &Val
     let old = match Peer::attach(&sock, "DEALER", Some(&ident)).await {
         Ok(p) => p,
         Err(e) => {
-            ctx.inconclusive(format!("C09 attach: {e}"));
+            ctx.violation_with("C09/peer-with-valid-identity-not-admitted", format!("DEALER peer announcing a {idlen}-byte identity was not admitted: {e}"), case.clone());
             return;
         }
     };
@@ -454,17 +462,45 @@ async fn reconnect(ctx: &mut Ctx, observed_first: bool, idlen: usize, case: &Val
         }
     }
     old.conn.close_full(EndKind::Eof);
-    if observed_first {
-        let _ = recv_now(&mut sock).await;
-        ctx.count("reconnects_after_the_end_was_observed");
+    let newp = if same_turn {
+        let backend = sock.backend();
+        {
+            let mut rv = Managed::new(sock.recv());
+            let _ = rv.poll_once(); // the end is noticed inside this poll
+        }
+        let (conn, r, w) = crate::pipe::Conn::new();
+        conn.feed(&rc::handshake("DEALER", Some(&ident)));
+        let mut att = Managed::new(crate::sock::attach_future(backend, r, w));
+        let res = match att.poll_once() {
+            Poll::Ready(x) => Some(x),
+            Poll::Pending => att.drive().await.ok().flatten(),
+        };
+        drop(att);
+        ctx.count("reconnects_in_the_turn_the_end_was_noticed");
+        sim::settle().await;
+        match res {
+            Some(Ok(id)) => {
+                let hs_len = crate::sock::library_handshake_len(&conn.tap()).unwrap_or(0);
+                Peer { conn, id, ty: "DEALER".into(), hs_len }
+            }
+            other => {
+                ctx.violation_with("C09/reconnect-rejected", format!("a peer reconnecting under its identity was rejected: {other:?}"), case.clone());
+                return;
+            }
+        }
     } else {
-        ctx.count("reconnects_before_the_end_was_observed");
-    }
-    let newp = match Peer::attach(&sock, "DEALER", Some(&ident)).await {
-        Ok(p) => p,
-        Err(e) => {
-            ctx.violation_with("C09/reconnect-rejected", format!("a peer reconnecting under its identity was rejected: {e}"), case.clone());
-            return;
+        if observed_first {
+            let _ = recv_now(&mut sock).await;
+            ctx.count("reconnects_after_the_end_was_observed");
+        } else {
+            ctx.count("reconnects_before_the_end_was_observed");
+        }
+        match Peer::attach(&sock, "DEALER", Some(&ident)).await {
+            Ok(p) => p,
+            Err(e) => {
+                ctx.violation_with("C09/reconnect-rejected", format!("a peer reconnecting under its identity was rejected: {e}"), case.clone());
+                return;
+            }
         }
     };
     // outbound: must reach the connected peer with that identity, i.e. the new connection
@@ -533,6 +569,9 @@ impl Prop for C09 {
         for observed in [false, true] {
             for idlen in [1usize, 5, 16, 255] {
                 v.push(json!({"kind": "reconnect", "observed": observed, "idlen": idlen}));
+                if observed {
+                    v.push(json!({"kind": "reconnect", "observed": true, "same_turn": true, "idlen": idlen}));
+                }
             }
         }
         v
@@ -573,6 +612,7 @@ impl Prop for C09 {
             ("sends_waiting_for_a_peer_that_is_not_reading", 30),
             ("sends_delivered_after_an_abandoned_send", 200),
             ("reconnects_before_the_end_was_observed", 4),
+            ("reconnects_in_the_turn_the_end_was_noticed", 4),
             ("reconnects_after_the_end_was_observed", 4),
         ]
     }
